@@ -52,6 +52,7 @@ package ignorefiles
 //@       && dominating == (foundMatch && !r.rules[$last].negationsAfter && hasSuffix(r.rules[$last].val, "**"))
 //@   defines def.excl: res.Excluded == excl(r, path) && res.Dominating == domin(r, path)
 //@   ensures C03.excludes.nil: r == nil ==> !res.Excluded && !res.Dominating
+//@   ensures C03.excludes.dom-implies-excluded: res.Dominating ==> res.Excluded
 //@   ensures C03.excludes.last: r != nil ==> $last >= -1 && $last < len(r.rules) && ($last >= 0 ==> ruleM(r, $last, path))
 //@   ensures C03.excludes.nolater: r != nil && $last < anyIndex && anyIndex < len(r.rules) ==> !ruleM(r, anyIndex, path)
 //@   ensures C03.excludes.lastwins: r != nil ==> res.Excluded == ($last >= 0 && !r.rules[$last].negated)
